@@ -132,8 +132,8 @@ def run(ctx):
             names = {n.id for n in ast.walk(st.value) if isinstance(n, ast.Name)}
             helper_names = {c.func.id for c in ast.walk(st.value) if isinstance(c, ast.Call) and isinstance(c.func, ast.Name)}
             unknown = sorted(n for n in names if n not in env and n not in ("np", "numpy", arr_name) and n not in helper_names)
-            if len(unknown) != 1:
-                raise AnalysisError(f"zmethod.getPoints: exclusion site uses {unknown}; expected exactly one name for the selected point")
+            if len(unknown) not in (1, 2):
+                raise AnalysisError(f"zmethod.getPoints: exclusion site uses {unknown}; expected one name for the selected point or two for its coordinates")
             menv = {}
             for nme in names:
                 if nme in env:
@@ -146,7 +146,19 @@ def run(ctx):
                         v = picks[0]
                     menv[nme] = v
             menv[arr_name] = p3
-            menv[unknown[0]] = best
+            if len(unknown) == 1:
+                menv[unknown[0]] = best
+            else:
+                # the selected row unpacked into coordinates: which name is x is decided by the selection statement of the same block
+                order = None
+                for sb in blocks[id(st)][1]:
+                    if sb in selections:
+                        txt = ast.unparse(sb.value)
+                        if all(u in txt for u in unknown):
+                            order = sorted(unknown, key=lambda u: txt.index(u))
+                if order is None:
+                    raise AnalysisError(f"zmethod.getPoints: cannot tell which of {unknown} is the x coordinate of the selected point")
+                menv[order[0]], menv[order[1]] = best.items[0], best.items[1]
             try:
                 val = _eval(rc, fi, st.value, menv)
             except Unsupported as e:
@@ -171,7 +183,7 @@ def run(ctx):
                 res.ok("Z4", f"zmethod.getPoints:site{n_site}[{label}]", "band widths are W = max(1, int(x_max*dx)) and H = (y_max - y_min)*dy")
             else:
                 # which part fails: the band structure (checked with the code's own widths) or the widths themselves?
-                scal = [v for nme, v in menv.items() if isinstance(v, Rat) and not v.is_array() and nme not in ("points", unknown[0])]
+                scal = [v for nme, v in menv.items() if isinstance(v, Rat) and not v.is_array() and nme not in ("points",) and nme not in unknown]
                 structure_ok = False
                 for wc in scal:
                     for hc in scal:
@@ -196,32 +208,65 @@ def run(ctx):
     env = {"points": pts, "dx": dx, "dy": dy, "dz": dz, "plot": FALSE, "x_max": Obj("none"), "y_range": Obj("none")}
     fr.block(pro, env, TRUE)
     H0 = (anf.opaque("amax", pts.items[1], array=False) - anf.opaque("amin", pts.items[1], array=False)) * dy
-    for st in ast.walk(main):
-        if not (isinstance(st, ast.If) and any(b in selections for b in st.body)):
-            continue
+    # nested defs of getPoints (a local predicate such as `def is_separated(mr, selected)`) are values of the prologue environment
+    for st_ in fi.node.body:
+        if isinstance(st_, ast.FunctionDef):
+            fr.stmt(st_, env, TRUE)
+    parents = {}
+    for n_ in ast.walk(main):
+        for fld in ("body", "orelse"):
+            blk_ = getattr(n_, fld, None)
+            if isinstance(blk_, list):
+                for j_, b_ in enumerate(blk_):
+                    parents[id(b_)] = (n_, fld, blk_, j_)
+
+    def path_tests(stmt):
+        """(test, polarity) pairs that hold when control reaches `stmt`: enclosing ifs and earlier `if c: continue / break / return` of each enclosing block."""
+        out_ = []
+        cur_ = stmt
+        while id(cur_) in parents:
+            owner_, fld_, blk_, j_ = parents[id(cur_)]
+            for prev_ in blk_[:j_]:
+                if isinstance(prev_, ast.If) and not prev_.orelse and prev_.body and isinstance(prev_.body[-1], (ast.Continue, ast.Break, ast.Return)):
+                    out_.append((prev_.test, False))
+            if isinstance(owner_, ast.If):
+                out_.append((owner_.test, fld_ == "body"))
+            if owner_ is main:
+                break
+            cur_ = owner_
+        return out_
+
+    for b in selections:
         n_sel += 1
-        # the collection of selected points: the name that receives np.append(<itself>, ...) in this body
-        sel_names = [b.targets[0].id for b in st.body if isinstance(b, ast.Assign) and isinstance(b.targets[0], ast.Name) and isinstance(b.value, ast.Call)
-                     and ast.unparse(b.value.func) in ("np.append", "numpy.append") and b.value.args and isinstance(b.value.args[0], ast.Name)
-                     and b.value.args[0].id == b.targets[0].id]
-        names = {n.id for n in ast.walk(st.test) if isinstance(n, ast.Name)}
-        helper_names = {c.func.id for c in ast.walk(st.test) if isinstance(c, ast.Call) and isinstance(c.func, ast.Name)}
-        others = sorted(n for n in names if n not in env and n not in helper_names and n not in sel_names and n not in ("np", "numpy", "abs", "all"))
+        sel_name = b.targets[0].id
+        tests = path_tests(b)
         good = False
         why = "the guard is not all(|best.y - y_i| >= H for the selected y_i)"
-        if len(sel_names) == 1 and len(others) <= 2:
-            sel = Vec([ev.symbol("sel.x", True), ev.symbol("sel.y", True)], "point")
-            genv = {n: env[n] for n in names if n in env}
-            genv[sel_names[0]] = sel
-            # the selected candidate: the remaining unknown name(s) (the comprehension variable is bound by the evaluator)
-            comp_vars = {g_.target.id for c in ast.walk(st.test) if isinstance(c, (ast.GeneratorExp, ast.ListComp)) for g_ in c.generators if isinstance(g_.target, ast.Name)}
-            cand_names = [n for n in others if n not in comp_vars]
-            if len(cand_names) == 1:
-                genv[cand_names[0]] = best
+        sel = Vec([ev.symbol("sel.x", True), ev.symbol("sel.y", True)], "point")
+        for t_ast, pol in tests:
+            names = {n.id for n in ast.walk(t_ast) if isinstance(n, ast.Name)}
+            if sel_name not in names:
+                continue
+            helper_names = {c.func.id for c in ast.walk(t_ast) if isinstance(c, ast.Call) and isinstance(c.func, ast.Name)}
+            comp_vars = {g_.target.id for c in ast.walk(t_ast) if isinstance(c, (ast.GeneratorExp, ast.ListComp)) for g_ in c.generators if isinstance(g_.target, ast.Name)}
+            others = sorted(n for n in names if n not in env and n not in helper_names and n != sel_name and n not in comp_vars and n not in ("np", "numpy", "abs", "all"))
+            genv = dict(env)
+            genv[sel_name] = sel
+            # the candidate: one name for the point, or separate names for its coordinates (a row unpacked in the loop header)
+            trials = []
+            if len(others) == 1:
+                trials = [{others[0]: best}, {others[0]: best.items[1]}]
+            elif len(others) == 2:
+                trials = [{others[0]: best.items[0], others[1]: best.items[1]}, {others[0]: best.items[1], others[1]: best.items[0]}]
+            for extra in trials:
+                ge = dict(genv)
+                ge.update(extra)
                 try:
-                    g = fr.truth(_eval(rc, fi, st.test, genv))
-                except Unsupported as e:
-                    raise AnalysisError(f"zmethod.getPoints: selection guard not modelled: {e}")
+                    g = fr.truth(_eval(rc, fi, t_ast, ge))
+                except Unsupported:
+                    continue
+                if not pol:
+                    g = g_not(g)
                 items = g.a if g.kind == "and" else (g,)
                 for x_ in items:
                     if x_.kind == "atom" and isinstance(x_.a, tuple) and x_.a and x_.a[0] == "quantified":
@@ -232,21 +277,36 @@ def run(ctx):
                             good = True
                         elif kind_ == "all" and not (isinstance(itv, Rat) and itv.equals(sel.items[1])):
                             why = "the guard does not range over the heights of the already selected points"
+                if good:
+                    break
+            if good:
+                break
         if good:
             sel_ok += 1
             res.ok("Z2", f"zmethod.getPoints:select#{sel_ok}", "selected only if |by - y| >= H for every selected y")
-        else:
-            res.violation("Z2", mod, fi.name, st, "a candidate can be selected although it is closer than H in y to an already selected knee: " + why,
-                          ast.unparse(st.test)[:160], "all(abs(best.y - y_i) >= H for y_i in <selected>[:, 1])", construct="selection guard")
-    for b in selections:
-        owner, blk = blocks[id(b)]
-        if not (isinstance(owner, ast.If) and blk is owner.body):
+        elif not any(sel_name in {n.id for n in ast.walk(t_) if isinstance(n, ast.Name)} for t_, _p in tests):
             res.violation("Z2", mod, fi.name, b, "a candidate is added to the selection without the height test against the already selected knees",
                           ast.unparse(b)[:120], "if all(abs(best.y - y_i) >= H for y_i in <selected>[:, 1]): <select>", construct="unguarded selection")
+        else:
+            res.violation("Z2", mod, fi.name, b, "a candidate can be selected although it is closer than H in y to an already selected knee: " + why,
+                          " and ".join(("" if p_ else "not ") + ast.unparse(t_)[:80] for t_, p_ in tests)[:200],
+                          "all(abs(best.y - y_i) >= H for y_i in <selected>[:, 1])", construct="selection guard")
     # ---- Z3: final sweep --------------------------------------------------------------------
     post = fi.node.body[k + 1:]
     # the sweep: the loop after the selection that deletes from a container (another loop may build that container)
     sweeps = [st for st in post if isinstance(st, ast.For) and any(isinstance(n, ast.Delete) for n in ast.walk(st))]
+    fi_sweep = fi
+    if not sweeps:
+        # the sweep may live in a private helper that is handed the selected points
+        for st_ in post:
+            for c_ in [c for c in ast.walk(st_) if isinstance(c, ast.Call) and isinstance(c.func, ast.Name)]:
+                r_ = rc.lk.resolve(mod, c_.func)
+                if r_.kind == "func" and r_.obj.module is mod:
+                    hs = [x for x in r_.obj.node.body if isinstance(x, ast.For) and any(isinstance(n, ast.Delete) for n in ast.walk(x))]
+                    if len(hs) == 1:
+                        fi_sweep = r_.obj
+                        post = list(r_.obj.node.body)
+                        sweeps = hs
     if len(sweeps) != 1:
         res.error("Z3: final sweep loop not found")
     else:
@@ -256,7 +316,7 @@ def run(ctx):
         rc.ev = ev3
         D = ev3.symbol("D!")
         # statements between the selection loop and the sweep (dictionary construction, initial minimum)
-        fr_s = Frame(ev3, fi, 0)
+        fr_s = Frame(ev3, fi_sweep, 0)
         senv = {}
         try:
             fr_s.block(post[:ks], senv, TRUE)
@@ -279,7 +339,7 @@ def run(ctx):
         mn = ev3.symbol("min!")
         benv = dict(senv)
         benv.update({dname: D, kname: kv, mname: mn})
-        out = ev3.eval_loop_body(fi, sw, benv)
+        out = ev3.eval_loop_body(fi_sweep, sw, benv)
         h = anf.opaque("item", D, kv)
         dels = [e for e in out.events if e.kind == "del" and e.target == dname]
         g_del = g_or(*[e.guard for e in dels]) if dels else FALSE
